@@ -1,0 +1,16 @@
+//go:build verif
+
+package slack
+
+// Contracts for govc (contract-based deductive verification). Comment-only file.
+
+// C20: the Slack integration's verdict on a failed transport: recoverable, never a success, and nothing is judged
+// without a response.
+//@ func (*Notifier).Notify
+//@   props C20
+//@   nosafe
+//@   abstract
+//@   after call notify.RedactURL assume (res0 != nil) == (arg0 != nil)
+//@   ensures [a-transport-failure-is-recoverable] called("dynamic:field:postJSONFunc") && ret1("dynamic:field:postJSONFunc") != nil ==> result0 && result1 != nil && !called("Retrier).Check")
+//@   ensures [a-refused-response-fails-with-the-retrier_s-verdict] called("Retrier).Check") && ret1("Retrier).Check") != nil ==> result1 != nil && result0 == ret("Retrier).Check")
+//@   noeffect dynamic:field:postJSONFunc Retrier).Check notify.RedactURL notify.NewErrorWithReason notify.GetFailureReasonFromStatusCode notify.Drain nflog.Store).GetStr nflog.Store).SetStr nflog.Store).Delete notify.NflogStore
